@@ -596,8 +596,11 @@ func runC17Fits(c *Ctx, funcs []*ssa.Function) {
 	p := c.P
 	c.Rule("R7", "DEP", "in the split helpers every `moved-total += n` that moves a whole container is guarded by a fits-test that reads the running total in the same closure (not a value derived from it in an enclosing closure, which goes stale once an inner step has moved something)", 6)
 	n := 0
+	// the split helpers: the package-level functions reached from the pending batches' `split(max) (n, request)` methods
+	// (found by the signature the batch interface gives them, robust_A8.go)
+	helpers := c17SplitHelpers(funcs)
 	for _, fn := range funcs {
-		if !strings.HasPrefix(rootFn(fn).Name(), "split") {
+		if !helpers[rootFn(fn)] {
 			continue
 		}
 		allInstrs(fn, func(in ssa.Instruction) {
@@ -1875,8 +1878,8 @@ func runC17FreshBatch(c *Ctx, funcs []*ssa.Function) {
 		if _, isIface := rt.Underlying().(*types.Interface); !isIface {
 			continue
 		}
-		// the interface with add/itemCount/export: the batch
-		if !hasMethod(rt, "itemCount") || !hasMethod(rt, "export") {
+		// the interface of the pending batch (recognised by the signatures of its methods)
+		if !isBatchIface(rt) {
 			continue
 		}
 		n++
